@@ -12,6 +12,8 @@ PROGRAMS = {
     "diamond, match in one arm": "#pragma version 6\nstart:\nint 1\nbnz right\nint 4\npop\nb join\nright:\nint 3\npop\njoin:\nint 1\nreturn\n",
     "loop before the match": "#pragma version 6\nstart:\nint 0\nloop:\nint 1\n+\ndup\nint 3\n<\nbnz loop\nint 4\npop\nint 1\nreturn\n",
     "match only in unreachable-from-label code": "#pragma version 6\nint 4\npop\nb start\nstart:\nint 1\nreturn\n",
+    "the named label is a loop head": "#pragma version 6\nint 0\nstart:\nint 1\n+\ndup\nint 3\n<\nbz done\ndup\npop\nb start\ndone:\nint 4\npop\nint 1\nreturn\n",
+    "the named label is a loop head inside a diamond": "#pragma version 6\ntxn Amount\nbz start\nint 7\npop\nstart:\ntxn Fee\nbnz out\nint 4\npop\nb start\nout:\nint 1\nreturn\n",
     "two matches": "#pragma version 6\nstart:\nint 4\npop\nint 1\nbz other\nint 4\npop\nother:\nint 1\nreturn\n",
     "match across a label": "#pragma version 6\nstart:\nint 1\nbz m\nm:\nint 4\nl2:\npop\nint 1\nreturn\n",
     "no match": "#pragma version 6\nstart:\nint 1\nint 2\n==\nreturn\n",
